@@ -53,7 +53,7 @@ def case_hash(case):
     return hashlib.sha1(canon(case).encode()).hexdigest()[:16]
 
 
-class CaseTimeout(Exception):
+class CaseTimeout(BaseException):
     pass
 
 
